@@ -29,7 +29,8 @@ DEFS = [
 BAD_DEFS = ["", "{not json", "[1, 2]", None]
 TYPED_BAD_DEFS = [7, {"StartAt": "P", "States": {"P": {"Type": "Pass", "End": True}}}, ["x"]]
 LOGGING = [None, None, {"level": "OFF"}, {"level": "ALL", "destinations": [{"cloudWatchLogsLogGroup": {"logGroupArn": "x"}}],
-                                         "includeExecutionData": True}, {"level": "ERROR", "destinations": [{}]}]
+                                         "includeExecutionData": True}, {"level": "ERROR", "destinations": [{}]},
+           {"level": "ALL", "destinations": [{}]}, {"level": "FATAL", "destinations": [{}], "includeExecutionData": False}]
 BAD_LOGGING = [{"level": "LOUD"}, {"level": "ERROR"}, {"level": "ALL", "destinations": []}, {"level": "FATAL", "destinations": [{}, {}]},
                # wrong JSON types
                "ALL", 7, ["ALL"], {"level": ["ALL"]}, {"level": {"x": 1}}, {"level": 3}, {"level": "ALL", "destinations": "x"},
